@@ -93,7 +93,7 @@ def write_if_changed(path, content):
 # fingerprints are missing, hence "changed").  NOT in this list: Gen/BoxSizingSites.v -- a syntactic audit of the source,
 # not an executable model; no correspondence could stand in for it.
 FALLBACK_TARGETS = {
-    'AbsPosEnums.v', 'AbsPosGen.v', 'BlockGen.v', 'CacheBodyGen.v', 'CacheGen.v', 'CompactLengthGen.v', 'FiltersGen.v', 'FlexGen.v',
+    'AbsPosEnums.v', 'AbsPosGen.v', 'BlockGen.v', 'CacheBodyGen.v', 'CacheGen.v', 'CompactLengthGen.v', 'EngineGlueGen.v', 'FiltersGen.v', 'FlexGen.v',
     'GridTracksGen.v', 'MathGen.v', 'PlacementGen.v', 'RoundingGen.v', 'TreeMethodsGen.v', 'TreeBodiesGen.v',
 }
 SNAPSHOTS = os.path.join(ROOT, 'translator', 'snapshots')
